@@ -89,6 +89,13 @@ namespace smt
     SMT_EXPORT std::vector<verif_assertion> verif_assertions() const;                                 // every assertion created so far..
     SMT_EXPORT std::vector<std::pair<var, lin>> verif_rows() const;                                   // the current tableau..
     const std::vector<std::pair<var, lin>> &verif_defs() const noexcept { return verif_slack_defs; } // slack variable -> defining expression (as given at creation)..
+    struct verif_pivot_info
+    {
+      var x_i, x_j;                                            // leaving / entering variable..
+      lin expr;                                                // x_j as an expression of the other variables..
+      std::vector<std::pair<var, lin>> before, after;          // the rows in which x_j appeared, before and after the update..
+      std::vector<std::pair<var, std::vector<var>>> watching;  // for each variable, the basic variables of those rows which watch it after the update..
+    };
     inline size_t verif_n_vars() const noexcept { return vals.size(); }
 #endif
 
